@@ -66,13 +66,34 @@ Definition pad_valid (p : pad) : bool :=
   | _ => false
   end.
 
-Inductive tx_sig := TSJunk | TSBy (s : owner) (content : N).
-Record tx := { t_owner : owner; t_content : N; t_sig : tx_sig }.
+(* the message a transaction's owner signs (Transaction::bytes_to_sign), as the sequence of fixed-width
+   fields and separator literals it is built from: owner key, "parent", parent keys, "content",
+   content, "outputs", then per output its key and its 32-byte content.  Which fields the function
+   covers is re-read from the source on every run (gen/Consts.v, the pv_tx_signs flags). *)
+Inductive tok := TPk (o : owner) | TLit (n : N) | TCont (c : N).
+Definition tx_msg (o : owner) (parents : list owner) (content : N) (outputs : list (owner * N)) : list tok :=
+  (if Consts.pv_tx_signs_owner then [TPk o] else []) ++ [TLit 1] ++
+  (if Consts.pv_tx_signs_parents then map TPk parents else []) ++ [TLit 2] ++
+  (if Consts.pv_tx_signs_content then [TCont content] else []) ++ [TLit 3] ++
+  flat_map (fun kc => (if Consts.pv_tx_signs_output_keys then [TPk (fst kc)] else []) ++
+                      (if Consts.pv_tx_signs_output_contents then [TCont (snd kc)] else [])) outputs.
 
-(* Transaction::verify *)
+(* BLS signature symbol: who signed, and the message that was signed *)
+Inductive tx_sig := TSJunk | TSBy (s : owner) (msg : list tok).
+Record tx := { t_owner : owner; t_parents : list owner; t_content : N;
+               t_outputs : list (owner * N); t_sig : tx_sig }.
+
+Definition tok_eqb (a b : tok) : bool :=
+  match a, b with
+  | TPk x, TPk y | TLit x, TLit y | TCont x, TCont y => x =? y
+  | _, _ => false
+  end.
+
+(* Transaction::verify: the owner's signature over bytes_to_sign of this transaction's own fields *)
 Definition tx_valid (t : tx) : bool :=
   match t_sig t with
-  | TSBy s c => (s =? t_owner t) && (c =? t_content t)
+  | TSBy s m => (s =? t_owner t) &&
+                list_eqb tok_eqb m (tx_msg (t_owner t) (t_parents t) (t_content t) (t_outputs t))
   | TSJunk => false
   end.
 
@@ -96,11 +117,13 @@ Definition pad_eqb (a b : pad) : bool :=
 Definition tx_sig_eqb (a b : tx_sig) : bool :=
   match a, b with
   | TSJunk, TSJunk => true
-  | TSBy s c, TSBy s' c' => (s =? s') && (c =? c')
+  | TSBy s m, TSBy s' m' => (s =? s') && list_eqb tok_eqb m m'
   | _, _ => false
   end.
+Definition pair_eqb (a b : owner * N) : bool := (fst a =? fst b) && (snd a =? snd b).
 Definition tx_eqb (a b : tx) : bool :=
-  (t_owner a =? t_owner b) && (t_content a =? t_content b) && tx_sig_eqb (t_sig a) (t_sig b).
+  (t_owner a =? t_owner b) && list_eqb N.eqb (t_parents a) (t_parents b) && (t_content a =? t_content b) &&
+  list_eqb pair_eqb (t_outputs a) (t_outputs b) && tx_sig_eqb (t_sig a) (t_sig b).
 
 Definition mem {A} (eqb : A -> A -> bool) (x : A) (l : list A) : bool := existsb (eqb x) l.
 Definition subset {A} (eqb : A -> A -> bool) (a b : list A) : bool := forallb (fun x => mem eqb x b) a.
